@@ -64,6 +64,12 @@ def gen_cases(rng, tier):
         rows = [[str(rng.randint(0, 9)) if rng.chance(0.8) else rng.pick(['x', '', '1.5']), rng.pick(['u', 'v']),
                  rng.pick(['1.5', '2', '0.25'])] for _ in range(rng.randint(1, 8))]
         cases.append({'kind': 'cast_schema', 'rows': rows, 'policy': rng.pick(['raise', 'drop', 'ignore', 'clear'])})
+    # a custom handler that answers per field (drop the row for a bad n, keep it for a bad m): a row goes on only if every
+    # answer for it said so, whichever field comes first in the schema (round 8)
+    for i in range(max(6, n // 6)):
+        rows = [[rng.pick(['1', '2', 'x', 'y7']), rng.pick(['u', 'v']), rng.pick(['1.5', '2', 'zz', '0.25', 'q'])] for _ in range(rng.randint(2, 8))]
+        rows.insert(rng.randint(0, len(rows)), ['bad', 'u', 'worse'])
+        cases.append({'kind': 'cast_schema', 'rows': rows, 'policy': 'custom_n_drops_m_keeps'})
     # limit_rows with schema casting: exactly the first n rows, whatever stands in the line after them
     for n_ in (1, 3):
         for pol in ('raise', 'drop'):
@@ -266,7 +272,8 @@ def run_impl(case):
         text = write_csv_file(['n', 's', 'm'], case['rows'])
         path = os.path.join(scratch(), 'c_%s.csv' % digest(case))
         open(path, 'w', newline='', encoding='utf-8').write(text)
-        pol = {'raise': Load.ERRORS_RAISE, 'drop': Load.ERRORS_DROP, 'ignore': Load.ERRORS_IGNORE, 'clear': Load.ERRORS_CLEAR}[case['policy']]
+        pol = {'raise': Load.ERRORS_RAISE, 'drop': Load.ERRORS_DROP, 'ignore': Load.ERRORS_IGNORE, 'clear': Load.ERRORS_CLEAR,
+               'custom_n_drops_m_keeps': (lambda res, row, i, e, field: field.name != 'n')}[case['policy']]
         out = run_stream([], [Load(path, name='res', cast_strategy=Load.CAST_WITH_SCHEMA, on_error=pol, limit_rows=case.get('limit'),
                                    override_fields={'n': {'type': 'integer'}, 'm': {'type': 'number'}}, infer_strategy=Load.INFER_STRINGS)])
         if 'error' in out:
@@ -421,6 +428,21 @@ def oracle(case, out):
         rows = case['rows'][:case['limit']] if case.get('limit') else case['rows']
         bad = [i for i, r in enumerate(rows) if not re.fullmatch(r'-?\d+', r[0].strip()) and r[0].strip() != '']
         pol = case['policy']
+        if pol == 'custom_n_drops_m_keeps':
+            if 'error' in out:
+                return 'cast_strategy=schema with a custom handler failed: %s' % out['exc']
+            exp = []
+            for i, r in enumerate(rows):
+                if i in bad:
+                    continue
+                try:
+                    m = decimal.Decimal(r[2])
+                except Exception:
+                    m = r[2]
+                exp.append({'n': int(r[0].strip()) if r[0].strip() != '' else None, 's': r[1], 'm': m})
+            got = [dict(n=g['n'], s=g['s'], m=g.get('m')) for g in rows_dec(out['rows'])]
+            return None if got == exp else ('cast_strategy=schema, handler dropping rows with a bad n and keeping rows with a bad m: rows %r, '
+                                            'the handler\'s answers give %r') % (got[:5], exp[:5])
         if pol == 'raise':
             if bad:
                 return None if 'error' in out else 'cast_strategy=schema/raise: an uncastable cell did not abort the run'
